@@ -165,13 +165,13 @@ def emit(tab):
 def validate_live(tab):
     problems = []
     from polyply.src import minimizer, virtual_site_builder
-    if [(k, Fraction(repr(v))) for k, v in minimizer.WEIGHTS.items()] != tab["weights"]:
+    if dict((k, Fraction(repr(v))) for k, v in minimizer.WEIGHTS.items()) != dict(tab["weights"]):
         problems.append("minimizer.WEIGHTS differs between ast and live module")
-    if [(k, v.__name__.lstrip("_")) for k, v in minimizer.INTER_METHODS.items()] != \
-            [(k, v.lstrip("_")) for k, v in tab["interMethods"]]:
+    if dict((k, v.__name__.lstrip("_")) for k, v in minimizer.INTER_METHODS.items()) != \
+            dict((k, v.lstrip("_")) for k, v in tab["interMethods"]):
         problems.append("minimizer.INTER_METHODS differs between ast and live module")
     live = [(k, v.__name__) for k, v in virtual_site_builder.VIRTUAL_SITES.items()]
-    if live != tab["vsTable"]:
+    if dict(live) != dict(tab["vsTable"]):   # a lookup table: order is irrelevant
         problems.append("virtual_site_builder.VIRTUAL_SITES differs between ast and live module")
     import inspect
     tol = inspect.signature(minimizer.optimize_geometry).parameters["tolerance"].default
